@@ -2,7 +2,7 @@ CONSTANTS
   FieldSet = {"f", "g.h"}
   DocSet = {"d1", "d2"}
   StrTerms = {"a"}
-  NumTerms <- Halves1
+  NumTerms <- Halves0
   Bounds <- Bounds4
   MaxLen = 5
   EmitAll = TRUE
